@@ -38,7 +38,8 @@ func C05(t *rapid.T, big bool) *world.Scenario {
 	rp.Header = [][2]string{H("Cache-Control", ccv), H("Etag", `"v$S"`)}
 	switch Weighted(t, "date", 70, 20, 10) {
 	case 0:
-		rp.Header = append(rp.Header, H("Date", "$T+0"))
+		// any of the three HTTP-date layouts: the Date the origin sent is what is replayed
+		rp.Header = append(rp.Header, H("Date", Pick(t, "datefmt", "$T+0", "$T+0", "$T+0", "$R+0", "$A+0")))
 	case 1:
 	case 2:
 		rp.Header = append(rp.Header, H("Date", "garbage"))
